@@ -921,6 +921,10 @@ func superMain(w World, cfg Config) int {
 		exit = 1
 	}
 
+	newUnsim := unsimulatedSources(prop)
+	for _, u := range newUnsim {
+		fmt.Fprintf(os.Stderr, "NOTE: the tree under test has a source of nondeterminism this world has no seam for (not in unsimulated_baseline.txt): %s — the verdict does not cover behaviour that depends on it\n", u)
+	}
 	wall := time.Since(t0).Seconds()
 	if !*fNoEvid {
 		if err := writeEvidence(w, cfg, total, totalCases, seed, wall, nviol, len(knownHit), procs, trouble); err != nil {
@@ -1198,6 +1202,53 @@ func confirmSeed(cs uint64, cfg Config, timeout time.Duration) (sig, detail stri
 // world supports it; otherwise it returns the first draws of the seed.
 func seedTape(cs uint64, cfg Config) []uint32 {
 	return tape.RawPrefix(cs, 1<<15)
+}
+
+// unsimulatedSources compares simrewrite's static list of constructs without a
+// seam (goroutines, select, finalizers, clocks, files, environment, random
+// numbers, sync.WaitGroup/Map/Pool/Cond declarations) in the packages this
+// property's world runs with the committed baseline and returns the new ones.
+var lastUnsim []string
+
+func unsimulatedSources(prop string) []string {
+	pk := map[string][]string{"C05": {"xpath"}, "C06": {"xpath"}, "C07": {"parse"}, "C11": {"parse", "compile", "schema", "xpath"}}[prop]
+	logb, err := os.ReadFile(os.Getenv("VERIF_REWRITE_LOG"))
+	if err != nil {
+		return nil
+	}
+	base := map[string]bool{}
+	if b, err := os.ReadFile(filepath.Join(*fVerif, "unsimulated_baseline.txt")); err == nil {
+		for _, l := range strings.Split(string(b), "\n") {
+			base[strings.TrimSpace(l)] = true
+		}
+	} else if b, err := os.ReadFile("/verif/unsimulated_baseline.txt"); err == nil {
+		for _, l := range strings.Split(string(b), "\n") {
+			base[strings.TrimSpace(l)] = true
+		}
+	}
+	var out []string
+	for _, l := range strings.Split(string(logb), "\n") {
+		if !strings.HasPrefix(l, "UNSIM ") {
+			continue
+		}
+		u := strings.TrimPrefix(l, "UNSIM ")
+		f := strings.Fields(u)
+		if len(f) != 2 {
+			continue
+		}
+		rel := f[1]
+		mine := false
+		for _, p := range pk {
+			if rel == p || strings.HasPrefix(rel, p+".") || strings.HasPrefix(rel, p+"/") {
+				mine = true
+			}
+		}
+		if mine && !base[u] {
+			out = append(out, u)
+		}
+	}
+	lastUnsim = out
+	return out
 }
 
 func loadKnown(path string) []KnownFinding {
